@@ -18,6 +18,7 @@ def pkg_maxTTL_ns : Nat := 86400000000000
 def pkg_minTTL_ns : Nat := 5000000000
 def positive_max_ns : Nat := 86400000000000
 def positive_min_ns : Nat := 5000000000
+def rrsig_expired_inverted_ttl_ns : Nat := 5000000000
 def rrsig_expired_ttl_ns : Nat := 5000000000
 def rrsig_short_ttl_ns : Nat := 7000000000
 
